@@ -49,6 +49,8 @@ def shapes(tier):
     # ... given on another time scale than TCB (UTC), and disabled
     out.append({"poly": 2, "noff": 0, "jitter": "constant", "units": "default", "tref": "explicit_utc"})
     out.append({"poly": 1, "noff": 0, "jitter": "sampled", "units": "other", "tref": "false"})
+    # sources given as a dict whose keys are not in sorted order (the offset belongs to the source the sampler gives it to)
+    out.append({"poly": 1, "noff": 1, "jitter": "constant", "units": "default", "data": "dict_unsorted"})
     # samples carrying ln_prior / ln_likelihood columns whose maximum is NOT at the median period (the initial point is still the
     # median-period sample), and samples carrying a reference epoch of their own (the model follows the DATA's epoch)
     out.append({"poly": 1, "noff": 0, "jitter": "constant", "units": "default", "samples": "with_logprobs"})
@@ -75,7 +77,9 @@ def _build(shape):
     t = Time(59000 + np.sort(rnd.uniform(0, 60, nt)), format="mjd", scale="tcb")
     rv = rnd.normal(0, 8, nt) * u.km / u.s
     err = rnd.uniform(0.5, 1.5, nt) * u.km / u.s
-    if noff:
+    if noff and shape.get("data") == "dict_unsorted":
+        data = {"keck": tj.RVData(t[:2], rv[:2], err[:2]), "apogee": tj.RVData(t[2:], rv[2:], err[2:])}      # keys not in sorted order
+    elif noff:
         data = [tj.RVData(t[:2], rv[:2], err[:2]), tj.RVData(t[2:], rv[2:], err[2:])]
     elif shape.get("tref") == "explicit":
         data = tj.RVData(t, rv, err, t_ref=Time(t.tcb.mjd.min() - 7.25, format="mjd", scale="tcb"))
